@@ -260,7 +260,7 @@ def to_py(v, opaque=None, dict_cls=dict, list_cls=list, set_cls=set):
             n, d = v['f']
             return n / d
         if 'b' in v:
-            return v['b'].encode('latin-1')
+            return bytearray(v['b'].encode('latin-1')) if v.get('ba') else v['b'].encode('latin-1')
         if 'l' in v:
             return list_cls(go(x) for x in v['l'])
         if 't' in v:
